@@ -3,12 +3,14 @@ import StamModel.Driver.Off
 import StamModel.Driver.U8
 import StamModel.Driver.Find
 import StamModel.Driver.Txt
+import StamModel.Driver.St
 /-
   Line-protocol driver: one request per line on stdin, one answer per line on stdout.
   Built as the `stamdriver` executable (core Lean only).
 -/
 namespace Driver
 
+/-- the stateless families -/
 def step (line : String) : String :=
   match (line.trimAscii.toString.splitOn " ") with
   | "rel" :: args => rel args
@@ -19,15 +21,22 @@ def step (line : String) : String :=
   | ["reset"] => "ok"
   | _ => "bad-op"
 
-partial def loop (h : IO.FS.Stream) (out : IO.FS.Stream) : IO Unit := do
+partial def loop (h : IO.FS.Stream) (out : IO.FS.Stream) (st : Stam.State) : IO Unit := do
   let line ← h.getLine
   if line.isEmpty then return ()
-  out.putStrLn (step line)
-  loop h out
+  match (line.trimAscii.toString.splitOn " ") with
+  | ["reset"] => out.putStrLn "ok"; loop h out Stam.State.empty
+  | "st" :: args =>
+    let (st', ans) := stStep st args
+    out.putStrLn ans
+    loop h out st'
+  | _ =>
+    out.putStrLn (step line)
+    loop h out st
 
 end Driver
 
 def main : IO Unit := do
   let stdin ← IO.getStdin
   let stdout ← IO.getStdout
-  Driver.loop stdin stdout
+  Driver.loop stdin stdout Stam.State.empty
